@@ -27,6 +27,8 @@ PRELUDE = '''#include <cstdio>
 #include "au/units/kelvins.hh"
 #include "au/units/celsius.hh"
 #include "au/units/fahrenheit.hh"
+#include "au/units/meters.hh"
+#include "au/units/seconds.hh"
 #include "%s"
 '''
 
@@ -98,11 +100,28 @@ def main(tier, seed):
         decl += " };"
         gen_defs.append(decl)
         units.append({"name": name, "cxx": name, "mag": frac_to_mag(s), "origin": org})
+    # anonymous COMPOUND point units of the temperature dimension (UnitProducts; origin ZERO): distinct types of identical
+    # dimension, magnitude and origin that the library orders by its last tiebreaker, plus ones of other magnitudes
+    comp = [("KkMpKm", "decltype(au::Kilo<au::Kelvins>{} * au::Meters{} / au::Kilo<au::Meters>{})", {}),
+            ("mKMpmM", "decltype(au::Milli<au::Kelvins>{} * au::Meters{} / au::Milli<au::Meters>{})", {}),
+            ("KSpS", "decltype(au::Kelvins{} * au::Kilo<au::Seconds>{} / (au::Seconds{} * au::mag<1000>()))", {}),
+            ("KkMpM", "decltype(au::Kelvins{} * au::Kilo<au::Meters>{} / au::Meters{})", frac_to_mag(Fraction(1000))),
+            ("mKMpM", "decltype(au::Milli<au::Kelvins>{} * au::Meters{} / au::Meters{})", None)]
+    comp_ids = []
+    for nm, ty, mg in comp:
+        if mg is None:
+            continue          # collapses to Milli<Kelvins> itself (the exponents of Meters cancel): not a compound
+        comp_ids.append(len(units))
+        units.append({"name": nm, "cxx": ty, "mag": mg, "origin": None})
     nlists = 160 if tier == "quick" else 2500
     lists = []
+    named_ids = [i for i in range(len(units)) if i not in comp_ids]
+    for (a, b) in ((0, 1), (1, 2), (0, 2), (0, 3)):
+        lists.append([comp_ids[a], comp_ids[b]])
+        lists.append([comp_ids[b], rng.choice(named_ids), comp_ids[a]])
     for _ in range(nlists):
         n = rng.choice([2, 2, 3, 3])
-        ids = rng.sample(range(len(units)), n)
+        ids = rng.sample(named_ids, n)
         # documented exclusion: two distinct units of identical magnitude and origin
         sig = set()
         ok = True
